@@ -59,7 +59,8 @@ CReply(c, t, k, src, done) ==
     LET c1 == [c EXCEPT !.cout[t] = 0, !.nrep[src] = @ + 1] IN
     IF src \notin CIds \/ c.req[src].kind # "req" THEN Flag(c, "reply-from-nowhere")
     ELSE IF c.cout[t] # src THEN
-         Flag(c1, IF src \in c.noreply THEN "reply-after-flush-ack"
+         Flag(c1, IF src \in c.noreply /\ c.cout[t] = 0 THEN "reply-after-flush-ack"
+                  ELSE IF src \in c.noreply THEN "flushed-reply-answers-new-request"   \* the tag's next user gets the flushed request's result
                   ELSE IF c.nrep[src] > 0 THEN "second-reply" ELSE "reply-for-wrong-request")
     ELSE IF src \notin c.exited THEN Flag(c1, "reply-before-handler-returned")
     ELSE IF c.hres[src] # k THEN Flag(c1, "result-kind-changed")
